@@ -281,6 +281,14 @@ def t1_estimates_clamped(F, r):
                     need_sign.append(m)
                 elif last == "clamp" and len(consts) == 2 and all(c is not None and 0.0 <= c <= 1.0 for c in consts):
                     why.append(f"clamp({consts[0]}, {consts[1]})")
+                    # f64::clamp propagates NaN (f64::min / max absorb it): a ratio whose divisor can be zero must not be clamped
+                    E0 = signs.Engine(F, {}, {"::elapsed_secs_as_float": lambda e, a, vn: signs.num(signs.NONNEG, None, vn), "::as_secs_f64": lambda e, a, vn: signs.num(signs.NONNEG, None, vn)})
+                    hz = [h for h in E0.analyse(m).hazards if h.kind == "div-by-zero"]
+                    if hz:
+                        good = False
+                        r.fail(name + ": NaN", "the progress ratio can be 0/0 (limit 0 at generation / time 0, as polled while the initial solutions are built) and f64::clamp propagates the NaN — "
+                               "f64::min(_, 1.) absorbs it: the estimate leaves [0,1] and, being maximal under total_cmp, wins the composite estimate", F.loc(m, hz[0].ln))
+                        continue
                 elif last in ("unwrap_or_default", "unwrap_or"):
                     # max of other estimates
                     leaves, crossed = mir.deep_leaves(fn, t["args"][0])
